@@ -282,6 +282,17 @@ func c18RunOp(x *Extractor, op c18Op, worker int, step *atomic.Int64, run *c18Ru
 		a := &c18Val{id: c18NextID.Add(1), payload: "pair"}
 		b := &c18Other{id: c18NextID.Add(1)}
 		res.val, res.other = StoreOrLoadPair(x, op.ref, a, b)
+		if res.other == nil {
+			res.err = errors.New("StoreOrLoadPair returned a nil second half")
+		}
+	case 'Q': // a plain Decode of the pair's second type
+		var o *c18Other
+		o, res.err = Decode(c, op.ref, func(c Cursor, obj Object, _ bool) (*c18Other, error) {
+			count("Q")
+			return &c18Other{id: c18NextID.Add(1)}, nil
+		})
+		res.other = o
+		res.val = &c18Val{id: -1, payload: "other-type"}
 	default:
 		panic("bad op")
 	}
@@ -319,6 +330,9 @@ func c18Programs() []c18Program {
 		{name: "X1|D1", prog: [][]c18Op{{op('X', a)}, {op('D', a)}}, depth: 2},
 		{name: "P1|P1", prog: [][]c18Op{{op('P', a)}, {op('P', a)}}},
 		{name: "P1|D1", prog: [][]c18Op{{op('P', a)}, {op('D', a)}}},
+		{name: "Q1|P1 (plain decode of the pair's second type)", prog: [][]c18Op{{op('Q', a)}, {op('P', a)}}},
+		{name: "D1P1|Q1", prog: [][]c18Op{{op('D', a), op('P', a)}, {op('Q', a)}}, depth: 2},
+		{name: "Q1Q1|P1Q1", prog: [][]c18Op{{op('Q', a), op('Q', a)}, {op('P', a), op('Q', a)}}, depth: 3},
 		{name: "Y1|Y1", prog: [][]c18Op{{op('Y', a)}, {op('Y', a)}}},
 		{name: "Y1|X1", prog: [][]c18Op{{op('Y', a)}, {op('X', a)}}, depth: 2},
 		{name: "F1|D1", prog: [][]c18Op{{op('F', a)}, {op('D', a)}}},
@@ -425,11 +439,25 @@ func c18Judge(c *kit.Case, p c18Program, run *c18Run, objs c18Getter) {
 	for i, res := range run.results {
 		// chains: reference 3 is cached under 3 and under 1
 		k := key{res.op.ref, "val"}
-		if res.err != nil {
+		if res.err != nil && res.op.kind != 'P' {
 			if !errors.Is(res.err, errC18Decode) {
 				c.Violationf("unexpected-error/"+string(res.op.kind), "%s\n%v returned %v", ctx(), res.op, res.err)
 			}
 			ops = append(ops, porcupine.Operation{ClientId: res.worker, Input: c18Input{key: fmt.Sprint(k.ref.Number()), isErr: true}, Call: res.call*100 + int64(i), Return: res.ret*100 + 50 + int64(i)})
+			continue
+		}
+		if res.err != nil && res.op.kind == 'P' {
+			c.Violationf("pair-half-missing/"+p.name, "%s\n%v", ctx(), res.err)
+			continue
+		}
+		if res.op.kind == 'Q' {
+			if res.other == nil {
+				c.Violationf("nil-result/Q", "%s\n%v returned nil without error", ctx(), res.op)
+			} else if prev, ok := others[res.op.ref]; ok && prev != res.other {
+				c.Violationf("identity-pair/"+p.name, "%s\ntwo decodes of the pair's second type for reference %d returned different Go values", ctx(), res.op.ref.Number())
+			} else {
+				others[res.op.ref] = res.other
+			}
 			continue
 		}
 		if res.val == nil {
